@@ -10,6 +10,7 @@ pub mod c23;
 pub mod c24;
 pub mod c24_table;
 pub mod common;
+pub mod comp;
 pub mod determ;
 pub mod edit;
 pub mod edits;
@@ -17,7 +18,7 @@ pub mod exec;
 pub mod small;
 
 pub fn all_ids() -> Vec<&'static str> {
-    vec!["C01", "C02", "C03", "C04", "C05", "C06", "C07", "C08", "C09", "C10", "C11", "C12", "C13", "C14", "C15", "C16", "C17", "C18", "C19", "C20", "C21", "C22", "C23", "C24", "C25", "C26", "C28", "C29", "C30"]
+    vec!["C01", "C02", "C03", "C04", "C05", "C06", "C07", "C08", "C09", "C10", "C11", "C12", "C13", "C14", "C15", "C16", "C17", "C18", "C19", "C20", "C21", "C22", "C23", "C24", "C25", "C26", "C27", "C28", "C29", "C30"]
 }
 
 pub fn get(id: &str) -> Option<Box<dyn Driver>> {
@@ -48,6 +49,7 @@ pub fn get(id: &str) -> Option<Box<dyn Driver>> {
         "C24" => Box::new(c24::OpcodeHelpers),
         "C25" => Box::new(iter::ModuleIter),
         "C26" => Box::new(iter::ComponentIter),
+        "C27" => Box::new(comp::ComponentRoundTrip),
         "C28" => Box::new(small::CustomSections),
         "C29" => Box::new(edits::c29()),
         "C30" => Box::new(edits::c30()),
